@@ -162,3 +162,48 @@ let () = register "abackjti" (fun toks ->
       let c = parse_cfg cfg in
       print_endline (String.concat " " (List.map (fun j -> string_of_int (int_of_n j)) (entry_backchannel_jtis c (n_of_int (int_of_string n)))))
     | _ -> print_endline "?bad abackjti line")
+
+(* histories of one process (Model/Auth.v hist_step; threading the counter over the lines is hist_run):
+   ahist0                                 resets the counter to 0 (start of a process)
+   ahist <cfg> | login <host> <xfh> <path> <level> <locale> <prompt> <referer> <replies>
+   ahist <cfg> | callback <state> <code> <iss> <error> <cookie> <tokens_ok> <provider_sid>
+   ahist <cfg> | logout <host> <xfh> <path> <redirect_to>
+   ahist <cfg> | logoutcb | frontchannel | logoutlocal
+   prints  ok=<0|1> draws=<kind>:r<n>,... rnd=<counter afterwards>   ("draws=hidden": drawn, but handed to nobody) *)
+let ahist_counter : n ref = ref N0
+
+let dkind_str (k : dkind) : string =
+  match int_of_n (dkind_code k) with
+  | 0 -> "nonce" | 1 -> "state" | 2 -> "verifier" | 3 -> "logout_state" | 4 -> "session_id" | 5 -> "data_key" | _ -> "?"
+
+let () = register "ahist0" (fun _ -> ahist_counter := N0; print_endline "rnd=0")
+
+let () = register "ahist" (fun toks ->
+    match split_bar toks with
+    | [cfg; opt] ->
+      let c = parse_cfg cfg in
+      let areq_of host xfh path level locale prompt =
+        { r_host = bytes_of_hex host; r_xfh = bytes_of_hex xfh; r_path = bytes_of_hex path;
+          r_level = bytes_of_hex level; r_locale = bytes_of_hex locale; r_prompt = bytes_of_hex prompt } in
+      let op = match opt with
+        | ["login"; host; xfh; path; level; locale; prompt; referer; replies] ->
+          Some (HLogin (areq_of host xfh path level locale prompt, parse_sval referer, List.map parse_reply (split_on ',' replies)))
+        | ["callback"; state; code; iss; err; cookie; tokok; provsid] ->
+          Some (HCallback ({ cb_state = parse_sval state; cb_code = parse_sval code; cb_iss = parse_sval iss; cb_error = parse_sval err;
+                             cb_cookie = parse_cookie cookie }, tokok = "1", provsid = "1"))
+        | ["logout"; host; xfh; path; redirect_to] -> Some (HLogout (areq_of host xfh path "-" "-" "-", parse_sval redirect_to))
+        | ["logoutcb"] -> Some HLogoutCallback
+        | ["frontchannel"] -> Some HLogoutFrontChannel
+        | ["logoutlocal"] -> Some HLogoutLocal
+        | _ -> None in
+      (match op with
+       | None -> print_endline "?bad ahist operation"
+       | Some op ->
+         let o = entry_hist_step c op !ahist_counter in
+         ahist_counter := o.hs_rnd;
+         let draws =
+           if not o.hs_visible then "hidden"
+           else if o.hs_draws = [] then "-"
+           else String.concat "," (List.map (fun (k, a) -> dkind_str k ^ ":r" ^ string_of_int (int_of_n a)) o.hs_draws) in
+         Printf.printf "ok=%s draws=%s rnd=%d\n" (zb o.hs_ok) draws (int_of_n o.hs_rnd))
+    | _ -> print_endline "?bad ahist line")
